@@ -46,6 +46,25 @@ pub mod verif {
 		*YIELD_HOOK.write().unwrap_or_else(|e| e.into_inner()) = hook;
 	}
 
+	/// Callback for named pipeline events (two numeric arguments).
+	pub type EventHook = std::sync::Arc<dyn Fn(&'static str, u64, u64) + Send + Sync>;
+
+	static EVENT_HOOK: std::sync::RwLock<Option<EventHook>> = std::sync::RwLock::new(None);
+
+	/// Install (or remove) the event callback.
+	pub fn set_event_hook(hook: Option<EventHook>) {
+		*EVENT_HOOK.write().unwrap_or_else(|e| e.into_inner()) = hook;
+	}
+
+	/// Named pipeline event with two numeric arguments, reported from INSIDE the critical
+	/// section that performs it.
+	pub fn event(name: &'static str, a: u64, b: u64) {
+		let hook = EVENT_HOOK.read().unwrap_or_else(|e| e.into_inner()).clone();
+		if let Some(hook) = hook {
+			hook(name, a, b)
+		}
+	}
+
 	static MIN_REF_COUNT_BITS_OVERRIDE: std::sync::atomic::AtomicU8 = std::sync::atomic::AtomicU8::new(0);
 
 	/// Index bits (1..=15) that ref-count tables created or looked for from now on start with; 0
